@@ -22,6 +22,21 @@ func symConv(utDst, utSrc types.Type, x value) (value, bool) {
 		if b, ok := utDst.(*types.Basic); ok && b.Info()&types.IsBoolean != 0 {
 			return x, true
 		}
+		if b, ok := utDst.(*types.Basic); ok && b.Kind() == types.String {
+			// string(integer): the UTF-8 encoding of the code point
+			w, _ := kindInfo(x.k)
+			t := x.t
+			if decide(mkCmp(opUlt, t, mkBV(w, 0x80))) {
+				return symstr{termToVal(mkExtract(7, 0, t), types.Uint8)}, true
+			}
+			if w == 8 || decide(mkCmp(opUlt, t, mkBV(w, 0x800))) {
+				t16 := mkZext(16, mkExtract(minInt(w, 16)-1, 0, t))
+				b0 := mkBin(opBvOr, mkBV(8, 0xC0), mkExtract(7, 0, mkBin(opLshr, t16, mkBV(16, 6))))
+				b1 := mkBin(opBvOr, mkBV(8, 0x80), mkBin(opBvAnd, mkExtract(7, 0, t16), mkBV(8, 0x3f)))
+				return symstr{termToVal(b0, types.Uint8), termToVal(b1, types.Uint8)}, true
+			}
+			panic(pathAbort{"string(rune) of a symbolic code point >= 0x800 (outside model)", true})
+		}
 		panic(engineErr(fmt.Sprintf("unsupported conversion of symbolic %v to %s", x.k, utDst)))
 	case symstr:
 		switch d := utDst.(type) {
@@ -189,4 +204,11 @@ func copyVal(v value) value {
 		return out
 	}
 	return v
+}
+
+func minInt(a, b int) int {
+	if a < b {
+		return a
+	}
+	return b
 }
